@@ -670,6 +670,10 @@ func (db *Database) GetSuggestions(query string, maxSuggestions int) []string {
 		words = append(words, word)
 	}
 	sort.Strings(words) // fixed candidate order: fuzzy.Find sorts stably
+	for i, w := range words {
+		// fuzzy.Find indexes out of range on a NUL byte (see performFuzzySearch)
+		words[i] = strings.ReplaceAll(w, "\x00", " ")
+	}
 
 	// Find fuzzy matches for the query
 	matches := fuzzy.Find(query, words)
